@@ -12,11 +12,14 @@ import (
 	"encoding/hex"
 	"encoding/json"
 	"fmt"
+	"io"
 	"os"
 	"reflect"
 	"runtime/debug"
 	"strings"
 	"sync"
+
+	"github.com/sirupsen/logrus"
 )
 
 // firstAcraFrame extracts the innermost acra function from a stack dump (skipping the harness layer).
@@ -272,6 +275,46 @@ func ReplayMain(table map[string]func()) {
 	out := RunNative(h)
 	fmt.Printf("VERIF-REPLAY-REACHED %v\n", Reached)
 	fmt.Printf("VERIF-REPLAY-OUTCOME %s\n", out)
+}
+
+// CaptureLogs starts recording what is handed to the logger (messages and field values). Symbolically the engine
+// records the arguments of every call into logrus; natively a logrus hook on the standard logger does.
+func CaptureLogs() {
+	logrus.SetLevel(logrus.TraceLevel)
+	logrus.SetOutput(io.Discard)
+	logrus.AddHook(&logHook{})
+}
+
+type logHook struct{}
+
+func (*logHook) Levels() []logrus.Level { return logrus.AllLevels }
+func (*logHook) Fire(e *logrus.Entry) error {
+	captured = append(captured, []byte(e.Message))
+	for _, v := range e.Data {
+		switch x := v.(type) {
+		case string:
+			captured = append(captured, []byte(x))
+		case []byte:
+			captured = append(captured, append([]byte{}, x...))
+		case error:
+			captured = append(captured, []byte(x.Error()))
+		default:
+			captured = append(captured, []byte(fmt.Sprint(x)))
+		}
+	}
+	return nil
+}
+
+var captured [][]byte
+
+// LogContains reports whether anything recorded since CaptureLogs contains b.
+func LogContains(b []byte) bool {
+	for _, c := range captured {
+		if bytes.Contains(c, b) {
+			return true
+		}
+	}
+	return false
 }
 
 // FreshASCII states a bound: from here on opaque crypto outputs are 7-bit bytes. It is for kernels in which the code
